@@ -64,6 +64,18 @@ func genC02(t *rapid.T) c02Scenario {
 		i := rapid.IntRange(1, len(sc.Steps)-1).Draw(t, "thetaAt")
 		sc.Steps[i].Theta = ip(rapid.SampledFrom([]int{0, 40, 90, 256}).Draw(t, "theta2"))
 	}
+	// a third party (firmware after a resume, another tool) takes the control mode or the PWM away between
+	// two cycles: whatever fan2go does about it, the minimum it has learnt stays
+	if rapid.IntRange(0, 2).Draw(t, "interference") == 0 {
+		for n := rapid.IntRange(1, 4).Draw(t, "nInterference"); n > 0; n-- {
+			i := rapid.IntRange(1, len(sc.Steps)-1).Draw(t, "intAt")
+			if rapid.IntRange(0, 2).Draw(t, "intKind") == 0 {
+				sc.Steps[i].IntPwm = ip(rapid.SampledFrom([]int{0, 1, 30, 128, 255}).Draw(t, "intPwm"))
+			} else {
+				sc.Steps[i].IntMode = ip(rapid.SampledFrom([]int{0, 2, 2, 3, 5}).Draw(t, "intMode"))
+			}
+		}
+	}
 	return c02Scenario{Loop: sc}
 }
 
@@ -121,6 +133,12 @@ func runC02(t *testing.T, sc c02Scenario) verdict {
 		prevR, prevK = r, k
 	}
 	labels := []string{"kind:" + sc.Loop.Fan.Kind, "loop:" + sc.Loop.Loop.Kind}
+	for _, st := range sc.Loop.Steps {
+		if st.IntMode != nil || st.IntPwm != nil {
+			labels = append(labels, "third-party-interference")
+			break
+		}
+	}
 	if raises > 0 {
 		labels = append(labels, "stall-episode")
 	}
